@@ -2,13 +2,17 @@ package rules
 
 import (
 	"fmt"
+	"go/ast"
 	"go/token"
 	"go/types"
+	"os"
+	"path/filepath"
 	"strings"
 
 	"golang.org/x/tools/go/ssa"
 
 	"crsverif/internal/load"
+	"crsverif/internal/rx"
 )
 
 // Rules added after the third round of independently seeded changes. Most of
@@ -739,8 +743,30 @@ func (c *Ctx) RuleStdoutPure() *Result {
 					ok = false
 				}
 			}
+			// and only after Run's error was found to be nil
 			if ok {
-				res.ok(key, c.P.InstrPos(in), "writes the value returned by Operator.Run")
+				for _, d := range data {
+					if ex, isEx := stripConv(d).(*ssa.Extract); isEx {
+						if rc, isCall := ex.Tuple.(*ssa.Call); isCall {
+							errV := resultValue(rc, 1)
+							succeeded := func(cond ssa.Value, val bool) bool {
+								b, isB := cond.(*ssa.BinOp)
+								if !isB {
+									return false
+								}
+								x, trueMeansNil, isTest := nilTest(b)
+								return isTest && x == errV && val == trueMeansNil
+							}
+							if errV == nil || !c.guardedByEdges(in, succeeded) {
+								res.bad(key, c.P.InstrPos(in), "the regex is written to standard output before (or without) the test of the error that Operator.Run returned with it: a failed run still prints an expression, or the error is overwritten by the write before it is looked at")
+								return
+							}
+						}
+					}
+				}
+			}
+			if ok {
+				res.ok(key, c.P.InstrPos(in), "writes the value returned by Operator.Run, and only on the side where its error is nil")
 			} else {
 				res.bad(key, c.P.InstrPos(in), fmt.Sprintf("%s is reachable from generate (%s) and writes something other than the generated regex to standard output: the output is no longer the single line that can be pasted between the quotes of a SecRule", what, PathTo(reach, fn)))
 			}
@@ -1074,5 +1100,511 @@ func (c *Ctx) RuleLoopProgress() *Result {
 		}
 	}
 	res.Dedup()
+	return res
+}
+
+// RuleEscPos (C02, C19): inside a loop that walks a text with an index and asks
+// "is the character here escaped?", the question is asked about the position
+// of the character that was just looked at - not about some other position.
+func (c *Ctx) RuleEscPos() *Result {
+	res := &Result{Rule: "ESC-POS", MinInst: 1}
+	for _, fn := range c.P.RepoFns {
+		if len(fn.Blocks) == 0 {
+			continue
+		}
+		for _, l := range naturalLoops(fn) {
+			// texts indexed in this loop, with the index values used
+			idxOf := map[ssa.Value][]ssa.Value{}
+			for b := range l.body {
+				for _, in := range b.Instrs {
+					switch x := in.(type) {
+					case *ssa.Index:
+						idxOf[x.X] = append(idxOf[x.X], x.Index)
+					case *ssa.Lookup:
+						if bt, ok := x.X.Type().Underlying().(*types.Basic); ok && bt.Kind() == types.String {
+							idxOf[x.X] = append(idxOf[x.X], x.Index)
+						}
+					}
+				}
+			}
+			if len(idxOf) == 0 {
+				continue
+			}
+			for b := range l.body {
+				for _, in := range b.Instrs {
+					call, ok := in.(*ssa.Call)
+					if !ok || !isEscapedLike(staticFn(&call.Call)) || len(call.Call.Args) != 2 {
+						continue
+					}
+					idxs, ok := idxOf[call.Call.Args[0]]
+					if !ok {
+						continue
+					}
+					res.Instances++
+					key := load.FnName(fn) + ":escape test at the inspected position"
+					pos := call.Call.Args[1]
+					okPos := false
+					for _, iv := range idxs {
+						if iv == pos {
+							okPos = true
+						}
+					}
+					if okPos {
+						res.ok(key, c.P.InstrPos(call), "the escape test is asked about the index of the character that is inspected")
+					} else {
+						res.bad(key, c.P.InstrPos(call), "the scan looks at one character of the text and asks whether a different position is escaped: an escaped parenthesis is counted as a group boundary (or a real one is ignored), and the text is cut at the wrong place")
+					}
+				}
+			}
+		}
+	}
+	res.Dedup()
+	return res
+}
+
+// RuleIncludeName (C05): the include file that is opened is the one that was
+// named. In package regex/parser, what is handed to os.Open is the name itself
+// or path.Join(directory, name) - the same name in both cases, derived from
+// the parameter by nothing but appending the extension - and the search over
+// the directories stops at the first directory in which the open succeeded.
+func (c *Ctx) RuleIncludeName() *Result {
+	res := &Result{Rule: "INCLUDE-NAME", MinInst: 1}
+	for _, fn := range c.P.RepoFns {
+		if load.ShortPkg(load.FnPkgPath(fn)) != "regex/parser" || len(fn.Blocks) == 0 {
+			continue
+		}
+		allInstrs(fn, func(in ssa.Instruction) {
+			call, ok := in.(*ssa.Call)
+			if !ok || !isFn(staticCallee(&call.Call), "os", "Open") {
+				return
+			}
+			res.Instances++
+			key := load.FnName(fn) + ":file opened for an include"
+			pos := c.P.InstrPos(call)
+			var problems []string
+			// (a) the names
+			names := map[ssa.Value]bool{}
+			seenPhi := map[*ssa.Phi]bool{}
+			var edges func(v ssa.Value, d int)
+			edges = func(v ssa.Value, d int) {
+				v = stripConv(v)
+				if ph, ok := v.(*ssa.Phi); ok {
+					if seenPhi[ph] {
+						return
+					}
+					seenPhi[ph] = true
+					// a phi that merges "as given" with "joined below a directory"
+					isNameMerge := true
+					for _, e := range ph.Edges {
+						if jc, ok := stripConv(e).(*ssa.Call); ok {
+							f := staticCallee(&jc.Call)
+							if isFn(f, "path", "Join") || isFn(f, "path/filepath", "Join") {
+								isNameMerge = false
+							}
+						}
+						if _, ok := stripConv(e).(*ssa.Phi); ok {
+							isNameMerge = false
+						}
+					}
+					if !isNameMerge {
+						for _, e := range ph.Edges {
+							edges(e, d+1)
+						}
+						return
+					}
+				}
+				if jc, ok := v.(*ssa.Call); ok {
+					f := staticCallee(&jc.Call)
+					if (isFn(f, "path", "Join") || isFn(f, "path/filepath", "Join")) && len(jc.Call.Args) == 1 {
+						if sl, ok := jc.Call.Args[0].(*ssa.Slice); ok {
+							els := variadicElems(sl)
+							if len(els) == 2 {
+								names[stripConv(els[1])] = true
+								return
+							}
+						}
+					}
+				}
+				names[v] = true
+			}
+			edges(call.Call.Args[0], 0)
+			var derivedOK func(v ssa.Value, d int) bool
+			derivedOK = func(v ssa.Value, d int) bool {
+				if d > 4 {
+					return false
+				}
+				switch x := v.(type) {
+				case *ssa.Parameter:
+					return true
+				case *ssa.Const:
+					return true
+				case *ssa.Phi:
+					for _, e := range x.Edges {
+						if !derivedOK(e, d+1) {
+							return false
+						}
+					}
+					return true
+				case *ssa.BinOp:
+					return x.Op == token.ADD && derivedOK(x.X, d+1) && derivedOK(x.Y, d+1)
+				}
+				return false
+			}
+			if len(names) != 1 {
+				problems = append(problems, "the name that is opened as given (absolute names) and the name that is joined below the include and exclude directories are not the same value: one of them misses what the other got (the .ra extension)")
+			}
+			for n := range names {
+				if !derivedOK(n, 0) {
+					problems = append(problems, fmt.Sprintf("the name handed to os.Open is not the include name with at most the extension appended (it goes through %T): part of the name (a sub-directory) is dropped and another file is read", n))
+				}
+			}
+			// (b) first success wins
+			if errV := resultValue(call, 1); errV != nil {
+				for _, l := range naturalLoops(fn) {
+					if !l.body[call.Block()] {
+						continue
+					}
+					found := false
+					for _, r := range referrers(errV) {
+						bin, ok := r.(*ssa.BinOp)
+						if !ok {
+							continue
+						}
+						_, trueMeansNil, isTest := nilTest(bin)
+						if !isTest {
+							continue
+						}
+						for _, br := range condBranches(bin) {
+							if !l.body[br.iff.Block()] {
+								continue
+							}
+							found = true
+							nilSide := 0
+							if trueMeansNil == br.neg {
+								nilSide = 1
+							}
+							blk := br.iff.Block()
+							if l.body[blk.Succs[nilSide]] && !l.body[blk.Succs[1-nilSide]] {
+								problems = append(problems, fmt.Sprintf("the search over the directories goes on after the file was opened and stops when an open fails (%s): a relative include is only found when it exists in the last directory tried", c.P.InstrPos(br.iff)))
+							}
+						}
+					}
+					_ = found
+					break
+				}
+			}
+			// (c) the include directory is tried before the exclude directory
+			{
+				var order []string
+				allInstrs(fn, func(in2 ssa.Instruction) {
+					st, ok := in2.(*ssa.Store)
+					if !ok {
+						return
+					}
+					ia, ok := st.Addr.(*ssa.IndexAddr)
+					if !ok {
+						return
+					}
+					k, ok := constInt(ia.Index)
+					if !ok {
+						return
+					}
+					if dc, ok := st.Val.(*ssa.Call); ok {
+						if df := staticCallee(&dc.Call); df != nil && (df.Name() == "IncludesDir" || df.Name() == "ExcludesDir") {
+							for int64(len(order)) <= k {
+								order = append(order, "")
+							}
+							order[k] = df.Name()
+						}
+					}
+				})
+				if len(order) >= 2 && !(order[0] == "IncludesDir" && order[1] == "ExcludesDir") {
+					problems = append(problems, "the exclude directory is searched before the include directory: a name that exists in both resolves to the exclusion list")
+				}
+			}
+			if len(problems) > 0 {
+				res.bad(key, pos, strings.Join(problems, "; "))
+			} else {
+				res.ok(key, pos, "os.Open gets the include name (extension appended) as given or joined below a directory; include directory first; the search stops at the first success")
+			}
+		})
+	}
+	return res
+}
+
+// RuleTestFileGrammar (C13, C15): the test-file name pattern accepts exactly
+// NNNNNN, NNNNNN.yaml and NNNNNN.yml (the shapes the statement of C13 names);
+// anything looser selects files that are not test files for rewriting.
+func (c *Ctx) RuleTestFileGrammar() *Result {
+	res := &Result{Rule: "RX-GRAMMAR-TESTS", MinInst: 1}
+	res.Instances++
+	key := "regex:RuleIdTestFileNameRegex"
+	p := c.Rx().ByName("regex.RuleIdTestFileNameRegex")
+	if p == nil {
+		res.undecided(key, "-", "the test-file name pattern is not a resolvable constant")
+		return res
+	}
+	have := searchLang(p)
+	want, _ := rx.SearchPattern("stated grammar", `^\d{6}(\.ya?ml)?$`)
+	none := func(r rune) bool { return false }
+	q := &rx.Query{Langs: []*rx.Lang{have, want}, Excluded: none, Accept: func(m []bool) bool { return m[0] != m[1] }}
+	r, err := q.Run()
+	switch {
+	case err != nil:
+		res.undecided(key, p.Pos, err.Error())
+	case r.Found:
+		res.bad(key, p.Pos, fmt.Sprintf("the test-file name pattern %s and the grammar NNNNNN[.yaml|.yml] disagree on %q: files that are not test files are renumbered and written (or test files are skipped)", p.Src, r.Witness))
+	default:
+		res.ok(key, p.Pos, "accepts exactly NNNNNN, NNNNNN.yaml, NNNNNN.yml (language equality)")
+	}
+	return res
+}
+
+// RuleUpdArgs (C20): what is downloaded and installed is the asset of the
+// detected release: the URL and the name handed to the installing call are the
+// AssetURL and AssetName fields of the release that detection returned.
+func (c *Ctx) RuleUpdArgs() *Result {
+	res := &Result{Rule: "UPD-ARGS", MinInst: 1}
+	for _, fn := range c.P.RepoFns {
+		if load.ShortPkg(load.FnPkgPath(fn)) != "internal/updater" {
+			continue
+		}
+		allInstrs(fn, func(in ssa.Instruction) {
+			call, ok := in.(*ssa.Call)
+			if !ok {
+				return
+			}
+			f := staticCallee(&call.Call)
+			if f == nil || objPkgPath(f) != selfupdatePkg || f.Name() != "UpdateTo" {
+				return
+			}
+			res.Instances++
+			key := load.FnName(fn) + ":asset handed to " + qualName(f)
+			// string arguments that are fields of a *selfupdate.Release
+			var fields []string
+			for _, a := range call.Call.Args {
+				if a.Type().Underlying().String() != "string" {
+					continue
+				}
+				name := "?"
+				if ld, ok := a.(*ssa.UnOp); ok {
+					if fa, ok := ld.X.(*ssa.FieldAddr); ok && isNamed(fa.X.Type(), selfupdatePkg, "Release") {
+						if st, ok := derefType(fa.X.Type()).Underlying().(*types.Struct); ok {
+							name = st.Field(fa.Field).Name()
+						}
+					}
+				}
+				fields = append(fields, name)
+			}
+			if len(fields) >= 2 && fields[0] == "AssetURL" && fields[1] == "AssetName" {
+				res.ok(key, c.P.InstrPos(call), "AssetURL and AssetName of the detected release")
+			} else {
+				res.bad(key, c.P.InstrPos(call), fmt.Sprintf("the installing call is given (%s) instead of the release's AssetURL and AssetName: the library decides from the name how to unpack the download, so the executable is replaced by the raw archive or by something that is not the platform's asset", strings.Join(fields, ", ")))
+			}
+		})
+	}
+	return res
+}
+
+// RuleChecksumName (C20): the checksum file the validator looks for is the one
+// the release pipeline publishes: .goreleaser.yml's checksum.name_template with
+// the project name filled in. (Two tables that must agree: the writer's in the
+// build configuration, the reader's in the source.)
+func (c *Ctx) RuleChecksumName() *Result {
+	res := &Result{Rule: "UPD-CHECKSUM-NAME", MinInst: 1}
+	data, err := os.ReadFile(filepath.Join(c.P.Dir, ".goreleaser.yml"))
+	want := ""
+	if err == nil {
+		project, tmpl := "", ""
+		inChecksum := false
+		for _, line := range strings.Split(string(data), "\n") {
+			t := strings.TrimSpace(line)
+			if strings.HasPrefix(line, "project_name:") {
+				project = strings.Trim(strings.TrimSpace(strings.TrimPrefix(line, "project_name:")), `"'`)
+			}
+			if !strings.HasPrefix(line, " ") && !strings.HasPrefix(line, "\t") {
+				inChecksum = strings.HasPrefix(line, "checksum:")
+			}
+			if inChecksum && strings.HasPrefix(t, "name_template:") {
+				tmpl = strings.Trim(strings.TrimSpace(strings.TrimPrefix(t, "name_template:")), `"'`)
+			}
+		}
+		if project != "" && tmpl != "" {
+			want = strings.NewReplacer("{{ .ProjectName }}", project, "{{.ProjectName}}", project).Replace(tmpl)
+			if strings.Contains(want, "{{") {
+				want = ""
+			}
+		}
+	}
+	for _, fn := range c.P.RepoFns {
+		if load.ShortPkg(load.FnPkgPath(fn)) != "internal/updater" {
+			continue
+		}
+		allInstrs(fn, func(in ssa.Instruction) {
+			st, ok := in.(*ssa.Store)
+			if !ok {
+				return
+			}
+			fa, ok := st.Addr.(*ssa.FieldAddr)
+			if !ok || !isNamed(fa.X.Type(), selfupdatePkg, "ChecksumValidator") {
+				return
+			}
+			stt, _ := derefType(fa.X.Type()).Underlying().(*types.Struct)
+			if stt == nil || stt.Field(fa.Field).Name() != "UniqueFilename" {
+				return
+			}
+			res.Instances++
+			key := load.FnName(fn) + ":checksum file name"
+			got, isConst := constString(st.Val)
+			switch {
+			case want == "":
+				res.ok(key, c.P.InstrPos(st), "the release configuration does not state a checksum file name that can be read statically; nothing to compare with")
+			case !isConst:
+				res.undecided(key, c.P.InstrPos(st), "the checksum file name is not a constant")
+			case got != want:
+				res.bad(key, c.P.InstrPos(st), fmt.Sprintf("the validator looks for %q but the release pipeline publishes %q (.goreleaser.yml): every proper release is refused, and a release that carries some other file of that name is installed without the project's checksums", got, want))
+			default:
+				res.ok(key, c.P.InstrPos(st), fmt.Sprintf("%q, as published by the release configuration", want))
+			}
+		})
+	}
+	return res
+}
+
+// RuleShadowParam: a short variable declaration in an inner block that reuses
+// the name of a parameter of the function, while the parameter is still used
+// after that block, assigns to a new variable what was meant for the
+// parameter (executablePath := exe).
+func (c *Ctx) RuleShadowParam() *Result {
+	res := &Result{Rule: "SHADOW-PARAM", MinInst: 1}
+	n := 0
+	for _, pkg := range c.P.Roots {
+		info := pkg.TypesInfo
+		for _, file := range pkg.Syntax {
+			ast.Inspect(file, func(nd ast.Node) bool {
+				fd, ok := nd.(*ast.FuncDecl)
+				if !ok || fd.Body == nil || fd.Type.Params == nil {
+					return true
+				}
+				n++
+				params := map[string]types.Object{}
+				for _, fl := range fd.Type.Params.List {
+					for _, nm := range fl.Names {
+						if o := info.Defs[nm]; o != nil && nm.Name != "_" {
+							params[nm.Name] = o
+						}
+					}
+				}
+				if len(params) == 0 {
+					return true
+				}
+				ast.Inspect(fd.Body, func(m ast.Node) bool {
+					as, ok := m.(*ast.AssignStmt)
+					if !ok || as.Tok != token.DEFINE {
+						return true
+					}
+					for _, lhs := range as.Lhs {
+						id, ok := lhs.(*ast.Ident)
+						if !ok {
+							continue
+						}
+						po, isParam := params[id.Name]
+						inner := info.Defs[id]
+						if !isParam || inner == nil || inner == po {
+							continue
+						}
+						// the parameter is still used after the scope of the inner variable ends
+						end := inner.Parent().End()
+						usedAfter := false
+						for use, obj := range info.Uses {
+							if obj == po && use.Pos() > end {
+								usedAfter = true
+							}
+						}
+						if !usedAfter {
+							continue
+						}
+						res.Instances++
+						res.bad(fmt.Sprintf("%s.%s:parameter %s shadowed", load.ShortPkg(pkg.PkgPath), fd.Name.Name, id.Name), c.P.Pos(id.Pos()), fmt.Sprintf("%s := … declares a new variable in the inner block; the parameter %s, which is used again after the block, keeps its old value (the computed path is logged but an empty one is passed on)", id.Name, id.Name))
+					}
+					return true
+				})
+				return true
+			})
+		}
+	}
+	res.Instances++
+	res.ok("repository:no shadowed parameter that is used afterwards", "-", fmt.Sprintf("%d function declarations scanned", n))
+	return res
+}
+
+// RuleExactCompare (C09, C10, C12): file content and regexes are compared byte
+// for byte. strings.EqualFold / bytes.EqualFold anywhere in the repository
+// makes a comparison blind to case, which is a difference the properties count.
+func (c *Ctx) RuleExactCompare() *Result {
+	res := &Result{Rule: "EXACT-COMPARE", MinInst: 100}
+	n := 0
+	for _, fn := range c.P.RepoFns {
+		res.Instances++
+		allInstrs(fn, func(in ssa.Instruction) {
+			cc := callCommon(in)
+			if cc == nil {
+				return
+			}
+			f := staticCallee(cc)
+			if isFn(f, "strings", "EqualFold") || isFn(f, "bytes", "EqualFold") {
+				n++
+				res.bad(load.FnName(fn)+":"+qualName(f), c.P.InstrPos(in), qualName(f)+" treats texts that differ only in letter case as equal: a stored operand or a header that differs from the generated one in case alone (\\\\s against \\\\S) is reported as unchanged / as standard")
+			}
+		})
+	}
+	if n == 0 {
+		res.ok("repository:no case-insensitive comparison", "-", fmt.Sprintf("%d functions scanned", res.Instances))
+	}
+	return res
+}
+
+// RuleBufAlias (C13, C14): an output buffer is not built on the memory of the
+// input that is still being read: bytes.NewBuffer(p[:0]) or append(p[:0], …)
+// with p a parameter overwrites unread input as soon as the output grows
+// faster than the input is consumed.
+func (c *Ctx) RuleBufAlias() *Result {
+	res := &Result{Rule: "BUF-ALIAS", MinInst: 100}
+	n := 0
+	isParamSlice := func(v ssa.Value) bool {
+		sl, ok := v.(*ssa.Slice)
+		if !ok {
+			return false
+		}
+		_, isParam := sl.X.(*ssa.Parameter)
+		return isParam
+	}
+	for _, fn := range c.P.RepoFns {
+		res.Instances++
+		allInstrs(fn, func(in ssa.Instruction) {
+			cc := callCommon(in)
+			if cc == nil {
+				return
+			}
+			what := ""
+			if f := staticCallee(cc); isFn(f, "bytes", "NewBuffer") && len(cc.Args) == 1 && isParamSlice(cc.Args[0]) {
+				what = "bytes.NewBuffer on a slice of a parameter"
+			}
+			if bi, ok := cc.Value.(*ssa.Builtin); ok && bi.Name() == "append" && len(cc.Args) > 0 && isParamSlice(cc.Args[0]) {
+				if sl := cc.Args[0].(*ssa.Slice); sl.High != nil {
+					if k, ok := constInt(sl.High); ok && k == 0 {
+						what = "append to p[:0] of a parameter"
+					}
+				}
+			}
+			if what != "" {
+				n++
+				res.bad(load.FnName(fn)+":"+what, c.P.InstrPos(in), what+": the output shares its memory with the input; when the rewritten text is longer than the original, unread input is overwritten and the rest of the file is duplicated or lost")
+			}
+		})
+	}
+	if n == 0 {
+		res.ok("repository:no output buffer on input memory", "-", fmt.Sprintf("%d functions scanned", res.Instances))
+	}
 	return res
 }
